@@ -50,6 +50,22 @@ impl AtomicU64 {
                 old(self)@ != cur ==> r == Err::<u64, u64>(old(self)@) && final(self)@ == old(self)@,
     { if self.v == cur { self.v = new; Ok(cur) } else { Err(self.v) } }
 }
+pub struct AtomicUsize { pub v: usize }
+impl AtomicUsize {
+    pub open spec fn view(&self) -> usize { self.v }
+    pub fn new(v: usize) -> (r: Self) ensures r@ == v { AtomicUsize { v } }
+    pub fn load(&self, o: Ordering) -> (r: usize) ensures r == self@ { self.v }
+    pub fn store(&mut self, v: usize, o: Ordering) ensures final(self)@ == v { self.v = v; }
+    pub fn fetch_add(&mut self, d: usize, o: Ordering) -> (r: usize) ensures r == old(self)@, final(self)@ == old(self)@.wrapping_add(d) { let r = self.v; self.v = self.v.wrapping_add(d); r }
+    pub fn compare_exchange(&mut self, cur: usize, new: usize, o1: Ordering, o2: Ordering) -> (r: Result<usize, usize>)
+        ensures old(self)@ == cur ==> r == Ok::<usize, usize>(cur) && final(self)@ == new,
+                old(self)@ != cur ==> r == Err::<usize, usize>(old(self)@) && final(self)@ == old(self)@,
+    { if self.v == cur { self.v = new; Ok(cur) } else { Err(self.v) } }
+    pub fn compare_exchange_weak(&mut self, cur: usize, new: usize, o1: Ordering, o2: Ordering) -> (r: Result<usize, usize>)
+        ensures old(self)@ == cur ==> r == Ok::<usize, usize>(cur) && final(self)@ == new,
+                old(self)@ != cur ==> r == Err::<usize, usize>(old(self)@) && final(self)@ == old(self)@,
+    { if self.v == cur { self.v = new; Ok(cur) } else { Err(self.v) } }
+}
 pub struct AtomicBool { pub v: bool }
 impl AtomicBool {
     pub open spec fn view(&self) -> bool { self.v }
